@@ -4,7 +4,8 @@
    with the callers' early exits, para_direction, level_at, has_rtl, get_base_direction_impl.
    Repaired code is modelled (D1: all units of a removed character are written; D2: a line entirely
    at level 126 returns its single run; D3: early exit also needs an even paragraph level;
-   D4: ParagraphBidiInfo::has_rtl also looks at the paragraph level); [legacy := true] selects the
+   D4: ParagraphBidiInfo::has_rtl also looks at the paragraph level; D8: utf16 reorder_line reads
+   unpaired surrogates as U+FFFD in LTR runs as well); [legacy := true] selects the
    unrepaired behaviour, used by the refutation lemmas in Proofs/Legacy.v. *)
 From BidiVerif Require Import Base ConstsGen ModelText ModelResolve.
 
@@ -211,7 +212,7 @@ Fixpoint all_runs_ltr (levels : list nat) (runs : list run) : res bool :=
                  if is_ltr l then all_runs_ltr levels rest else Ok false
   end.
 
-Fixpoint emit_runs (text : list N) (levels : list nat) (runs : list run) : res (list N) :=
+Fixpoint emit_runs (legacy : bool) (text : list N) (levels : list nat) (runs : list run) : res (list N) :=
   match runs with
   | [] => Ok []
   | r :: rest =>
@@ -220,16 +221,20 @@ Fixpoint emit_runs (text : list N) (levels : list nat) (runs : list run) : res (
     out <- (if is_rtl l
             then cs <- t_chars_rev e sub ;;
                  Ok (match e with U8 => cs | U16 => flat_map encode_utf16 cs end)
-            else Ok sub) ;;
-    rest' <- emit_runs text levels rest ;;
+            else Ok (match e with
+                     | U8 => sub
+                     | U16 => if legacy then sub                       (* raw copy: D8 *)
+                              else flat_map encode_utf16 (t_chars e sub) (* repaired *)
+                     end)) ;;
+    rest' <- emit_runs legacy text levels rest ;;
     Ok (out ++ rest')
   end.
 
-Definition reorder_line_core (text : list N) (line : nat * nat) (levels : list nat) (runs : list run)
+Definition reorder_line_core (legacy : bool) (text : list N) (line : nat * nat) (levels : list nat) (runs : list run)
   : res (list N) :=
   all_ltr <- all_runs_ltr levels runs ;;
   if all_ltr then t_subrange 892 e text (fst line) (snd line)
-  else emit_runs text levels runs.
+  else emit_runs legacy text levels runs.
 
 (* BidiInfo::reorder_line(para, line) / ParagraphBidiInfo::reorder_line(line) *)
 Definition reorder_line (legacy : bool) (text : list N) (classes : list bclass) (levels : list nat)
@@ -240,7 +245,7 @@ Definition reorder_line (legacy : bool) (text : list N) (classes : list bclass) 
   else
     lv <- reordered_levels e legacy text classes levels para_level line ;;
     '(lv, runs) <- visual_runs_for_line legacy lv line ;;
-    reorder_line_core text line lv runs.
+    reorder_line_core legacy text line lv runs.
 
 End ReorderLine.
 
